@@ -28,6 +28,8 @@ package main
 //   [i2] impstep W                     one asyncImport batch            fin | more | idle | err-<class>
 //   [i2] impstep! W                    the same, even for a wallet that is already done
 //   [i2] impsteps W N                  N times impstep, without saying what each returned   ok
+//   [i2] impstepn W B                  one batch with `notify B` handled while the worker waits in suspend (eng_imp_suspend.go)
+//                                      <notify answer>/<impstep answer>
 //   [i2] expired                       volatile height -> confirmed tx map
 //   [i2] mempool                       volatile pending id set
 //   twin W                             observations of W in instance 1 | instance 2
@@ -59,7 +61,7 @@ import (
 
 func init() {
 	register(&Engine{Name: "imp", Gen: genImp, NewExec: func() Exec { return &irExec{} }})
-	register(&Engine{Name: "rem", Gen: genRem, NewExec: func() Exec { return &irExec{} }})
+	register(&Engine{Name: "rem", Gen: genRem, NewExec: func() Exec { return &irExec{stepForks: true} }})
 }
 
 type remRun struct {
@@ -71,20 +73,27 @@ type remRun struct {
 type irInst struct {
 	e    *WEnv
 	rm   *remRun
-	own  bool // owns the chain database (instance 1)
-	dead bool // the implementation panicked inside a database transaction: the instance is unusable
+	own  bool        // owns the chain database (instance 1)
+	dead bool        // the implementation panicked inside a database transaction: the instance is unusable
+	fdb  *stepForkDB // engine rem: copies of the wallet directory after every commit of a removal step (eng_rem_fork.go)
 }
 
 type irExec struct {
-	i1, i2 *irInst
-	fillN  int
+	i1, i2    *irInst
+	fillN     int
+	stepForks bool // engine rem: a `restart` right after a removal step is a crash BETWEEN the commits of that step
+	forkPick  int
 }
 
 func (x *irExec) inst1() *irInst {
 	if x.i1 == nil {
 		e := NewWEnv()
-		e.wm.VerifEnsureTaskChan()
 		x.i1 = &irInst{e: e, own: true}
+		if x.stepForks {
+			x.i1.installStepForks()
+			e.reset() // reopen the wallet database under the wrapper
+		}
+		e.wm.VerifEnsureTaskChan()
 	}
 	return x.i1
 }
@@ -102,11 +111,14 @@ func (x *irExec) inst2() *irInst {
 	e2.wdb, e2.wm, e2.wrapDB = nil, nil, nil
 	os.RemoveAll(e2.dir)
 	os.MkdirAll(e2.dir, 0700)
+	x.i2 = &irInst{e: e2}
+	if x.stepForks {
+		x.i2.installStepForks()
+	}
 	if err := e2.openWallet(true); err != nil {
 		panic(err)
 	}
 	e2.wm.VerifEnsureTaskChan()
-	x.i2 = &irInst{e: e2}
 	return x.i2
 }
 
@@ -219,6 +231,9 @@ func useStrict(e *WEnv, w string) string {
 
 func (x *irExec) op(in *irInst, a []string) string {
 	e := in.e
+	if in.fdb != nil && a[0] != "restart" && a[0] != "remstep" && a[0] != "remsteps" {
+		in.fdb.drop() // the copies of a removal step serve the op that directly follows it only
+	}
 	switch {
 	case irQueries[a[0]] && len(a) >= 2:
 		if useStrict(e, a[1]) != "ok" {
@@ -231,6 +246,14 @@ func (x *irExec) op(in *irInst, a []string) string {
 		return useStrict(e, a[1])
 	case a[0] == "restart" && len(a) == 1:
 		in.abortRemoval()
+		if done, err := in.restartAtCommitBoundary(x.forkPick); done {
+			// the removal step before this op committed more than once: the process dies between two of its commits
+			x.forkPick++
+			if e.wm != nil {
+				e.wm.VerifEnsureTaskChan()
+			}
+			return errTok(err)
+		}
 		r := errTok(e.Restart())
 		if e.wm != nil {
 			e.wm.VerifEnsureTaskChan()
@@ -257,6 +280,10 @@ func (x *irExec) op(in *irInst, a []string) string {
 		return impStep(e, a[1], false)
 	case a[0] == "impstep!" && len(a) == 2:
 		return impStep(e, a[1], true)
+	case a[0] == "impstepn" && len(a) == 3:
+		var n string
+		r := impStepDuring(e, a[1], false, func() { n = notifyChecked(e, []string{"notify", a[2]}) })
+		return n + "/" + r
 	case a[0] == "impsteps" && len(a) == 3:
 		n, err := strconv.Atoi(a[2])
 		if err != nil {
@@ -455,7 +482,19 @@ func importBatch(wm *masswallet.WalletManager, id string) (fin bool, err error) 
 	}
 }
 
-func impStep(e *WEnv, w string, force bool) string {
+func impStep(e *WEnv, w string, force bool) string { return impStepDuring(e, w, force, nil) }
+
+// impStepDuring: `during` (if any) runs exactly once: while the worker waits in suspend when a batch is run, otherwise
+// before the answer is given.
+func impStepDuring(e *WEnv, w string, force bool, during func()) string {
+	ran := false
+	run := func() {
+		if during != nil && !ran {
+			ran = true
+			during()
+		}
+	}
+	defer run()
 	id, ok := e.wallets[w]
 	if !ok {
 		return "bad-op"
@@ -467,7 +506,13 @@ func impStep(e *WEnv, w string, force bool) string {
 			return "idle"
 		}
 	}
-	fin, err := importBatch(e.wm, id)
+	var fin bool
+	var err error
+	if during != nil {
+		fin, err = importBatchDuring(e.wm, id, run)
+	} else {
+		fin, err = importBatch(e.wm, id)
+	}
 	if err != nil {
 		switch err {
 		case masswallet.ErrImportingContinuable:
